@@ -128,6 +128,14 @@ pub fn generate(kind: &str, seed: u64, run: u64, _thorough: bool) -> Scenario {
         hash_seeds: (0..3).map(|_| hr.next_u64() >> 16).collect(),
         ..Default::default()
     };
+    {
+        // one scenario in three: other files of the store (damaged copies that are rejected part
+        // way through) are loaded on the same thread between the steps of the round trip
+        let mut or = Rng::stream(seed, run, "OPS");
+        if or.chance(1, 3) {
+            sc.ops = (0..2 + or.below(5)).map(|_| Op::Disturb(or.below(DISTURB_KINDS as usize) as u8)).collect();
+        }
+    }
     if kind == "torn" {
         let mut fr = Rng::stream(seed, run, "STORAGE");
         sc.storage = vec![c04::gen_storage_fault(&mut fr, &sc.rule_text, seed, run)];
@@ -195,6 +203,17 @@ pub fn execute(sc: &Scenario) -> Outcome {
     let sw = sc.switch_sets.first().copied().unwrap_or(0);
     let base_verdicts = verdicts(&rule, sc);
     let original = content(&sc.rule_text);
+    // the scenario's disturbances, one before each (re)load below, cycled
+    let disturbances: Vec<u8> = sc.ops.iter().filter_map(|o| if let Op::Disturb(k) = o { Some(*k) } else { None }).collect();
+    let next_disturbance = std::cell::Cell::new(0usize);
+    let disturb_now = |stats: &mut Stats| {
+        if !disturbances.is_empty() {
+            let k = disturbances[next_disturbance.get() % disturbances.len()];
+            next_disturbance.set(next_disturbance.get() + 1);
+            stats.inc(&format!("fault_load_in_between_{}", disturb(k, &sc.rule_text)));
+        }
+    };
+    disturb_now(&mut stats);
     // text and value loading agree
     if let Ok(y) = serde_yaml::from_str::<Yaml>(&sc.rule_text) {
         match guarded(|| Rule::from_value(y)) {
@@ -226,6 +245,7 @@ pub fn execute(sc: &Scenario) -> Outcome {
         let _ = std::fs::create_dir_all(&dir);
         let path = dir.join("rule.yml");
         if std::fs::write(&path, &sc.rule_text).is_ok() {
+            disturb_now(&mut stats);
             match guarded(|| Rule::load(&path)) {
                 Ok(Ok(r3)) => {
                     if show(&r3) != show(&rule)
@@ -303,6 +323,7 @@ pub fn execute(sc: &Scenario) -> Outcome {
             Ok(s) => s,
             Err(_) => continue,
         };
+        disturb_now(&mut stats);
         let back = match load(&stored) {
             Loaded::Ok(r) => r,
             Loaded::Rejected(e) => {
